@@ -228,7 +228,8 @@ class Ex(StmtMixin, ExprMixin, CallMixin, CompMixin):
   def ev_Call(self, e):
     if isinstance(e.func, ast.Name) and e.func.id == 'old' and self.pure_mode:
       saved = self.env
-      self.env = dict(self.entry_env)
+      # inside a modular call, old(...) of the callee's contract is the state at the call
+      self.env = dict(self.call_old_env if getattr(self, 'call_old_env', None) is not None else self.entry_env)
       for k, v in saved.items():
         if k not in self.env:
           self.env[k] = v
